@@ -1,5 +1,6 @@
 import OmplModel.Proofs.SpaceBounds
 import OmplModel.Proofs.SpaceBoundsValid
+import OmplModel.Proofs.SpaceBoundsSamplers
 /-!
 C08 — bound enforcement and every sampler keep states inside the space.
 Property theorems only (helper lemmas: `Proofs/SpaceBounds*.lean`).  `[EX]` = exact real arithmetic
@@ -192,6 +193,177 @@ theorem enforce_idem_so3_partial (x y z w : ℝ) :
   obtain ⟨a, b, c, d, he, hs⟩ := so3Enforce_sat x y z w
   obtain ⟨k, hk, he2⟩ := so3Enforce_close hs
   exact ⟨a, b, c, d, k, he, hk, he2⟩
+
+/-! ### samplers as functions of their raw draws `[EX]` -/
+
+theorem rvOk_pi : rvOk [Num.ofNat 0] [(Num.pi : ℝ)] := ⟨by simpa [Num.ofNat, pi_val] using Real.pi_pos.le, trivial⟩
+
+/-- [EX] `sampleUniform` of every space (compound, wrapped, special) is in bounds for all `uniform01()` draws in
+`[0,1)`; SO(3) through `RNG::quaternion` as coded. -/
+theorem sampler_inbounds_uniform (R : Rng ℝ) (hR : drawsOk R) (sp : Space ℝ) : ∀ (p : Pos), boundsOk sp →
+    satisfiesBounds sp (sampleUniform R sp p).1 = true := by
+  induction sp with
+  | rv lo hi => intro p h; simpa [sampleUniform, satisfiesBounds] using rvUniform_sat R hR lo hi _ h
+  | so2 => intro p _; simpa [sampleUniform, satisfiesBounds] using so2Uniform_sat (hR _).1 (hR _).2
+  | so3 =>
+    intro p _
+    obtain ⟨a, b, c, d, he, hn⟩ := rngQuaternion_unit (u1 := R.u (p.ui + 1)) (u2 := R.u (p.ui + 2)) (hR p.ui).1 (hR p.ui).2
+    simpa [sampleUniform, so3Uniform, satisfiesBounds, he] using so3Sat_of_unit hn
+  | time b lo hi =>
+    intro p h
+    cases b
+    · simp [sampleUniform, satisfiesBounds]
+    · have := uniformReal_mem (h rfl) (hR p.ui).1 (hR p.ui).2
+      simp only [sampleUniform, satisfiesBounds, if_true, tm_time, Bool.not_true, Bool.false_or, timeSat_iff]
+      constructor <;> linarith [eps_pos]
+  | disc lo hi => intro p h; simpa [sampleUniform, satisfiesBounds] using uniformInt_sat h (hR _).1 (hR _).2
+  | cnil => intro p _; simp [sampleUniform, satisfiesBounds]
+  | ccons w hd tl ih1 ih2 => intro p h; simp [sampleUniform, satisfiesBounds, ih1 _ h.1, ih2 _ h.2]
+  | torus _ _ =>
+    intro p _
+    simp [sampleUniform, satisfiesBounds, so2Uniform_sat (hR _).1 (hR _).2]
+  | mobius imax _ =>
+    intro p h
+    have hi : -imax ≤ imax := by have : 0 ≤ imax := h; linarith
+    have := uniformReal_mem hi (hR (p.ui + 1)).1 (hR (p.ui + 1)).2
+    simp [sampleUniform, satisfiesBounds, rvSat, so2Uniform_sat (hR _).1 (hR _).2, rvSat1_of_mem this.1 this.2]
+  | klein =>
+    intro p _
+    have := uniformReal_mem (a := (Num.ofNat 0 : ℝ)) (b := Num.pi) rvOk_pi.1 (hR p.ui).1 (hR p.ui).2
+    simp [sampleUniform, satisfiesBounds, rvSat, so2Uniform_sat (hR _).1 (hR _).2, rvSat1_of_mem this.1 this.2]
+  | sphere _ =>
+    intro p _
+    have hp := Real.pi_pos
+    have h1 : so2Sat (Num.ofNat 2 * Num.pi * uniformReal (Num.ofNat 0) (Num.ofNat 1) (R.u p.ui) - Num.pi : ℝ) = true := by
+      rw [so2Sat_iff]
+      simp only [uniformReal_val, Num.ofNat, pi_val, Nat.cast_ofNat, Nat.cast_zero, Nat.cast_one]
+      have := hR p.ui
+      constructor <;> nlinarith
+    have h2 := rvSat1_of_mem (l := (Num.ofNat 0 : ℝ)) (h := Num.pi)
+      (x := Num.acos (Num.ofNat 1 - Num.ofNat 2 * uniformReal (Num.ofNat 0) (Num.ofNat 1) (R.u (p.ui + 1))))
+      (by simpa [Num.ofNat, Num.acos] using Real.arccos_nonneg _) (by simpa [Num.acos, pi_val] using Real.arccos_le_pi _)
+    simp [sampleUniform, satisfiesBounds, rvSat, h1, h2]
+  | wrap sp ih => intro p h; simpa [sampleUniform, satisfiesBounds] using ih p h
+
+-- non-vacuity
+example (R : Rng ℝ) (hR : drawsOk R) : satisfiesBounds exSpace (sampleUniform R exSpace {}).1 = true :=
+  sampler_inbounds_uniform R hR _ _ exSpace_ok
+
+/-- [EX] `sampleUniformNear` of every space is in bounds for all draws, every radius `0 ≤ d` (up to infinity: no upper
+bound is assumed) and every in-bounds centre; compounds scale the radius by the component's weight importance and
+fall back to `sampleUniform` when the importance is `≤ eps`, exactly as coded. -/
+theorem sampler_inbounds_near (R : Rng ℝ) (hR : drawsOk R) (sp : Space ℝ) :
+    ∀ (ctx : Option ℝ) (c : OmplModel.St ℝ) (d : ℝ) (p : Pos), boundsOk sp → 0 ≤ d → satisfiesBounds sp c = true →
+    satisfiesBounds sp (sampleNear R ctx sp c d p).1 = true := by
+  induction sp with
+  | rv lo hi =>
+    intro ctx c d p h hd hs
+    simpa [sampleNear, satisfiesBounds] using rvNear_sat R hR hd lo hi _ _ h (by simpa [satisfiesBounds] using hs)
+  | so2 => intro ctx c d p _ _ _; simpa [sampleNear, satisfiesBounds] using so2Enforce_sat _
+  | so3 =>
+    intro ctx c d p _ _ hs
+    simp only [sampleNear, so3Near]
+    split_ifs
+    · obtain ⟨a, b, c', d', he, hn⟩ :=
+        rngQuaternion_unit (u1 := R.u (p.ui + 1)) (u2 := R.u (p.ui + 2)) (hR p.ui).1 (hR p.ui).2
+      simpa [so3Uniform, satisfiesBounds, he] using so3Sat_of_unit hn
+    · obtain ⟨x, y, z, w, hq, hu⟩ := axisAngle_unit (R.g p.gi) (R.g (p.gi + 1)) (R.g (p.gi + 2))
+        (Num.ofNat 2 * R.u p.ui * d)
+      obtain ⟨x', y', z', w', he, hsat⟩ := quatMul_sat c hu (by simpa [satisfiesBounds] using hs)
+      simpa [satisfiesBounds, hq, he] using hsat
+  | time b lo hi =>
+    intro ctx c d p h _ _
+    cases b
+    · simp [sampleNear, satisfiesBounds]
+    · have := clampHL_mem (h rfl) (rawNear R (St.tm c) d p.ui)
+      simp only [sampleNear, satisfiesBounds, if_true, tm_time, Bool.not_true, Bool.false_or, timeSat_iff]
+      constructor <;> linarith [eps_pos]
+  | disc lo hi => intro ctx c d p h _ _; simpa [sampleNear, satisfiesBounds] using discEnforce_sat h _
+  | cnil => intro ctx c d p _ _ _; simp [sampleNear, satisfiesBounds]
+  | ccons w hd tl ih1 ih2 =>
+    intro ctx c d p h hd' hs
+    simp only [satisfiesBounds, Bool.and_eq_true] at hs
+    simp only [sampleNear, satisfiesBounds, hd_ccons, tl_ccons, Bool.and_eq_true]
+    refine ⟨?_, ih2 _ _ _ _ h.2 hd' hs.2⟩
+    split_ifs with hi
+    · exact ih1 _ _ _ _ h.1 (mul_nonneg hd' (le_of_lt (lt_trans eps_pos hi))) hs.1
+    · exact sampler_inbounds_uniform R hR _ _ h.1
+  | torus _ _ => intro ctx c d p _ _ _; simp [sampleNear, satisfiesBounds, so2Enforce_sat]
+  | mobius imax _ =>
+    intro ctx c d p h hd' hs
+    have hi : rvOk [-imax] [imax] := ⟨by have : 0 ≤ imax := h; linarith, trivial⟩
+    simp only [satisfiesBounds, Bool.and_eq_true] at hs
+    simp only [sampleNear]
+    split_ifs with himp
+    · have := rvNear_sat R hR (mul_nonneg hd' (le_of_lt (lt_trans eps_pos himp))) [-imax] [imax]
+        (St.vals (St.hd (St.tl c))) (p.ui + 1) hi hs.2
+      simp [satisfiesBounds, so2Enforce_sat, this]
+    · have := uniformReal_mem hi.1 (hR (p.ui + 1)).1 (hR (p.ui + 1)).2
+      simp [satisfiesBounds, rvSat, so2Uniform_sat (hR _).1 (hR _).2, rvSat1_of_mem this.1 this.2]
+  | klein =>
+    intro ctx c d p _ _ _
+    simp [sampleNear, satisfiesBounds, so2Enforce_sat, enfRv, rvEnforce_sat _ _ _ rvOk_pi]
+  | sphere _ =>
+    intro ctx c d p _ _ _
+    simp [sampleNear, satisfiesBounds, so2Enforce_sat, enfRv, rvEnforce_sat _ _ _ rvOk_pi]
+  | wrap sp ih => intro ctx c d p h hd hs; simpa [sampleNear, satisfiesBounds] using ih none c d p h hd (by simpa [satisfiesBounds] using hs)
+
+-- non-vacuity: any radius, e.g. a million times the extent
+example (R : Rng ℝ) (hR : drawsOk R) (c : OmplModel.St ℝ) (hc : satisfiesBounds exSpace c = true) :
+    satisfiesBounds exSpace (sampleNear R none exSpace c 1000000 {}).1 = true :=
+  sampler_inbounds_near R hR _ _ _ _ _ exSpace_ok (by norm_num) hc
+
+/-- [EX] `sampleGaussian` of every space is in bounds for all `gaussian01()` draws (any real number), every standard
+deviation (no sign or size restriction) and every in-bounds mean (the mean matters only for SO(3), whose sampler
+multiplies it by a unit quaternion). -/
+theorem sampler_inbounds_gaussian (R : Rng ℝ) (hR : drawsOk R) (sp : Space ℝ) :
+    ∀ (ctx : Option ℝ) (c : OmplModel.St ℝ) (sd : ℝ) (p : Pos), boundsOk sp → satisfiesBounds sp c = true →
+    satisfiesBounds sp (sampleGauss R ctx sp c sd p).1 = true := by
+  induction sp with
+  | rv lo hi => intro ctx c sd p h _; simpa [sampleGauss, satisfiesBounds] using rvGauss_sat R sd lo hi _ _ h
+  | so2 => intro ctx c sd p _ _; simpa [sampleGauss, satisfiesBounds] using so2Enforce_sat _
+  | so3 =>
+    intro ctx c sd p _ hs
+    obtain ⟨a, b, c', d, he, hsat⟩ := so3Gauss_sat R hR c sd p (by simpa [satisfiesBounds] using hs)
+    simpa [sampleGauss, satisfiesBounds, he] using hsat
+  | time b lo hi =>
+    intro ctx c sd p h _
+    cases b
+    · simp [sampleGauss, satisfiesBounds]
+    · have := clampHL_mem (h rfl) (gaussian (St.tm c) sd (R.g p.gi))
+      simp only [sampleGauss, satisfiesBounds, if_true, tm_time, Bool.not_true, Bool.false_or, timeSat_iff]
+      constructor <;> linarith [eps_pos]
+  | disc lo hi => intro ctx c sd p h _; simpa [sampleGauss, satisfiesBounds] using discEnforce_sat h _
+  | cnil => intro ctx c sd p _ _; simp [sampleGauss, satisfiesBounds]
+  | ccons w hd tl ih1 ih2 =>
+    intro ctx c sd p h hs
+    simp only [satisfiesBounds, Bool.and_eq_true] at hs
+    simp only [sampleGauss, satisfiesBounds, hd_ccons, tl_ccons, Bool.and_eq_true]
+    exact ⟨ih1 _ _ _ _ h.1 hs.1, ih2 _ _ _ _ h.2 hs.2⟩
+  | torus _ _ => intro ctx c sd p _ _; simp [sampleGauss, satisfiesBounds, so2Enforce_sat]
+  | mobius imax _ =>
+    intro ctx c sd p h _
+    have hi : rvOk [-imax] [imax] := ⟨by have : 0 ≤ imax := h; linarith, trivial⟩
+    simp [sampleGauss, satisfiesBounds, so2Enforce_sat, rvGauss_sat R _ _ _ _ _ hi]
+  | klein =>
+    intro ctx c sd p _ _
+    simp [sampleGauss, satisfiesBounds, so2Enforce_sat, enfRv, rvEnforce_sat _ _ _ rvOk_pi]
+  | sphere _ =>
+    intro ctx c sd p _ _
+    simp [sampleGauss, satisfiesBounds, so2Enforce_sat, enfRv, rvEnforce_sat _ _ _ rvOk_pi]
+  | wrap sp ih => intro ctx c sd p h hs; simpa [sampleGauss, satisfiesBounds] using ih none c sd p h (by simpa [satisfiesBounds] using hs)
+
+-- non-vacuity
+example (R : Rng ℝ) (hR : drawsOk R) (c : OmplModel.St ℝ) (hc : satisfiesBounds exSpace c = true) :
+    satisfiesBounds exSpace (sampleGauss R none exSpace c 1000000 {}).1 = true :=
+  sampler_inbounds_gaussian R hR _ _ _ _ _ exSpace_ok hc
+
+/-- [EX] `quaternionProduct` of unit quaternions is unit (norm is multiplicative). -/
+theorem quaternionProduct_unit (a b : OmplModel.St ℝ)
+    (ha : nrmSq (St.qx a) (St.qy a) (St.qz a) (St.qw a) = 1) (hb : nrmSq (St.qx b) (St.qy b) (St.qz b) (St.qw b) = 1) :
+    ∃ x y z w, quatMul a b = .so3 x y z w ∧ nrmSq x y z w = 1 := by
+  obtain ⟨x, y, z, w, he, hn⟩ := quatMul_nrmSq a b
+  exact ⟨x, y, z, w, he, by rw [hn, ha, hb]; norm_num⟩
 
 /-! ### valid-state samplers `[AF]`
 
